@@ -323,7 +323,9 @@ static void parseQuery(void *inFrame, lltd_iface_state *st, void *iface_ctx) {
     }
 
     uint16_t num_descs = (st->see_list_count > max_descs) ? (uint16_t)max_descs : (uint16_t)st->see_list_count;
-    respH->numDescs = lltd_htons(num_descs);
+    /* bit 15 of the count field tells the mapper to query again for the rest */
+    uint16_t more = (st->see_list_count > num_descs) ? 0x8000 : 0;
+    respH->numDescs = lltd_htons((uint16_t)(num_descs | more));
     offset += sizeof(*respH);
 
     probe_t *node = st->see_list;
@@ -349,7 +351,15 @@ static void parseQuery(void *inFrame, lltd_iface_state *st, void *iface_ctx) {
     (void)lltd_port_send_frame(iface_ctx, buffer, offset);
     lltd_port_free(buffer);
 
-    lltd_state_clear_seen_probes(st);
+    /* release what was reported; what did not fit waits for the next Query */
+    uint16_t reported = (uint16_t)(num_descs - remaining);
+    while (st->see_list != NULL && reported > 0) {
+        probe_t *next = (probe_t *)st->see_list->nextProbe;
+        lltd_port_free(st->see_list);
+        st->see_list = next;
+        st->see_list_count--;
+        reported--;
+    }
 }
 
 static void sendLargeTlvResponse(lltd_iface_state *st,
